@@ -16,7 +16,20 @@ them with the real code on every run):
   which holds for the empty array too); `npMask` = `a[mask]`; `pyEnumerate` = `enumerate`;
 * `npIsClose rtol a b` = `np.isclose(a, b, rtol=rtol)` with numpy's default `atol = 1e-8`, for finite arguments;
 * `pyAbs` = `abs` on a float (`-0.0` and NaN aside); `ofInt` = int → float conversion of a non-negative int (the
-  only one in the source, `turns - 1`, sits behind `if turns <= 0: raise`). -/
+  only one in the source, `turns - 1`, sits behind `if turns <= 0: raise`);
+* `pyEq a b` = `a == b` on two floats, written with the order alone: *neither is less than the other* (so that the
+  translation runs at `Float`, which has no decidable `=`; exact for all non-NaN doubles, `-0.0 == 0.0` included; a NaN
+  operand gives `true` here and `False` in Python).  `pyEqV3` = `==` of two `Point`s of numbers (tuple equality:
+  component-wise).  The tie theorems that compare with a model written with `=` carry the law `pyEq a b ↔ a = b`
+  (`EqLaw`) as an explicit hypothesis;
+* `pyLast` = `xs[-1]` of a non-empty list (the default is unreachable: the only use is `controls[-1]` of a list that
+  starts as `[origin]` and only grows).
+
+Not here but *parameters* of the translated functions that use them (no assumption beyond "a function of its arguments"):
+`np_copysign` (`np.copysign`), `CubicSpline` (`scipy.interpolate.CubicSpline(x, y)` as the function `θ ↦ s(θ)`; calling it
+on an array is element-wise), `moveEffect` (what `self._g.move(p, **kwargs)` leaves in `self._g.position`, given the
+position before and `p`; `move` is assumed to change nothing else that the tracer reads: distance mode, direction,
+resolution). -/
 namespace GscribModel.TracerPrelude
 open GscribModel.Tracer
 
@@ -63,6 +76,15 @@ def npIsClose [OfScientific K] (rtol a b : K) : Bool := isClose rtol (1e-8 : K) 
 
 /-- `abs(x)` -/
 def pyAbs (a : K) : K := absK a
+
+/-- `a == b` on floats: neither is less than the other -/
+def pyEq (a b : K) : Bool := !decide (a < b) && !decide (b < a)
+
+/-- `p == q` on two `Point`s whose coordinates are numbers -/
+def pyEqV3 (p q : V3 K) : Bool := pyEq p.x q.x && pyEq p.y q.y && pyEq p.z q.z
+
+/-- `xs[-1]` -/
+def pyLast (xs : List (V3 K)) : V3 K := xs.getLast?.getD ⟨0, 0, 0⟩
 
 /-- int → float of a non-negative `int` -/
 def ofInt (T : Trig K) (i : Int) : K := T.ofNat i.toNat
